@@ -19,7 +19,12 @@ func NewConnectGun(cfg GunConfig, answLog *zap.Logger) *BaseGun {
 		cfg.TargetResolved = cfg.Target
 	}
 
-	return NewBaseGun(newConnectClient, cfg, answLog)
+	// The tunnel is dialed at the resolved address; cfg.Target keeps the configured host,
+	// which names the target in the Host header and in the TLS handshake.
+	resolved := cfg.TargetResolved
+	return NewBaseGun(func(conf ClientConfig, target string) Client {
+		return newConnectClientResolved(conf, target, resolved)
+	}, cfg, answLog)
 }
 
 func DefaultConnectGunConfig() GunConfig {
@@ -44,10 +49,14 @@ func DefaultConnectGunConfig() GunConfig {
 }
 
 func newConnectClient(conf ClientConfig, target string) Client {
+	return newConnectClientResolved(conf, target, target)
+}
+
+func newConnectClientResolved(conf ClientConfig, target, resolved string) Client {
 	transport := NewTransport(
 		conf.Transport,
 		newConnectDialFunc(
-			target,
+			resolved,
 			conf.ConnectSSL,
 			NewDialer(conf.Dialer),
 		),
